@@ -98,12 +98,13 @@ STRING_VALUES = ["\\", "end\\", "C:\\dir\\", "\\\\", "a\\b", "q\"", "\"", "\\\""
 def string_programs():
     out = []
     for v in STRING_VALUES:
+        kind = "ends-with-escaped-backslash" if v.endswith("\\") else "escaped-quote" if '"' in v else "escaped-backslash" if "\\" in v else "plain"
         lit = '"%s"' % v.replace("\\", "\\\\").replace('"', '\\"')
-        out.append(("print", "print %s\nprint \"after\"\n" % lit, [v, "after"]))
-        out.append(("two-on-a-line", "print %s + \"x\" + %s\n" % (lit, lit), [v + "x" + v]))
-        out.append(("variable", "s = %s\nt = s + \"|\" + s\nprint t\nprint s == %s\n" % (lit, lit), [v + "|" + v, "true"]))
-        out.append(("argument", "f = fn(a: str, b: str) -> str {\n  return a + %s + b\n}\nprint f(%s, \"z\")\n" % (lit, lit), [v + v + "z"]))
-        out.append(("condition", "if %s == \"other\" {\n  print \"eq\"\n} else {\n  print \"ne\"\n}\n" % lit, ["ne"]))
+        out.append((kind, "print", "print %s\nprint \"after\"\n" % lit, [v, "after"]))
+        out.append((kind, "two-on-a-line", "print %s + \"x\" + %s\n" % (lit, lit), [v + "x" + v]))
+        out.append((kind, "variable", "s = %s\nt = s + \"|\" + s\nprint t\nprint s == %s\n" % (lit, lit), [v + "|" + v, "true"]))
+        out.append((kind, "argument", "f = fn(a: str, b: str) -> str {\n  return a + %s + b\n}\nprint f(%s, \"z\")\n" % (lit, lit), [v + v + "z"]))
+        out.append((kind, "condition", "if %s == \"other\" {\n  print \"eq\"\n} else {\n  print \"ne\"\n}\n" % lit, ["ne"]))
     return out
 
 
@@ -171,12 +172,12 @@ def run(ctx):
                    {"program": src, "expected": exp, "observed": got, "rc": rc, "stderr": err[-600:], "how": "mscript run main.ms -q"})
     sps = string_programs()
     n_strings = 0
-    for (form, src, exp), (rc, out, err) in zip(sps, programs.pmap(one_src, [c[1] for c in sps])):
+    for (kind, form, src, exp), (rc, out, err) in zip(sps, programs.pmap(one_src, [c[2] for c in sps])):
         n_strings += 1
         got = out.split("\n")[:-1]
         if rc != 0 or got != exp:
-            ctx.report("string-literal:" + form, "a string literal with escaped backslashes / quotes: printed %r (exit %d), the language defines %r: %s"
-                       % ([] if "Did not compile" in (out + err) else got, rc, exp, (out + err)[-300:].replace("\n", " ")),
+            ctx.report("string-literal:" + kind, "a string literal with escaped backslashes / quotes (%s): printed %r (exit %d), the language defines %r: %s"
+                       % (form, [] if "Did not compile" in (out + err) else got, rc, exp, (out + err)[-300:].replace("\n", " ")),
                        {"program": src, "expected": exp, "observed": got, "rc": rc, "stderr": err[-600:], "how": "mscript run main.ms -q"})
     ctx.cov["identifier_programs"] = n_names
     ctx.cov["string_literal_programs"] = n_strings
